@@ -184,7 +184,10 @@ def replay_case(args):
             tens[name] = args.get("tensors", {}).get(name, rnd.uniform(-2, 2))
         return tens[name]
 
-    prs = pairs_for(args["case"], params(values=vals), mk)
+    try:
+        prs = pairs_for(args["case"], params(values=vals), mk)
+    except Exception as e:  # noqa  -- admissible kinematics (x, y in (0,1], Q2 > 0): a raise is the violation being replayed
+        return True, f"{args['case']} at {vals}: raises {type(e).__name__}: {e}"
     bad = harness.float_pairs_differ(prs, args.get("label"), rtol=1e-9)
     return (True, f"{args['case']} at {vals}: {bad[:3]}") if bad else (False, "equal at this point")
 
